@@ -720,6 +720,10 @@ void clearComponentImports(const ComponentPtr &component)
 
 void Importer::clearImports(ModelPtr &model)
 {
+    if (model == nullptr) {
+        return;
+    }
+
     // Clear the models from all import sources in the model.
     for (size_t u = 0; u < model->unitsCount(); ++u) {
         auto mu = model->units(u);
